@@ -150,8 +150,11 @@ def connectBestChainT (s : State) (b : Block) : Trace :=
         match s.tds b.parent with
         | none => []
         | some ptd =>
-          if b.diff + ptd ≤ tiptd ∨ b.height < s.fin + s.margin then []
-          else reorgToT s b (findFork s b)
+          match findFork s b with
+          | none => []
+          | some f =>
+            if b.diff + ptd ≤ tiptd ∨ b.height < s.fin + s.margin then []
+            else reorgToT s b (some f)
 
 /-- `dbMaybeStoreBlock`: one chain batch unless the header is already stored. -/
 def storeBlockT (s : State) (b : Block) : Trace :=
